@@ -12,6 +12,10 @@ EPS = 2.220446049250313e-16
 
 
 def close(a, b, rel=1e-9):
+    if a == b:  # also equal infinities (the Newson-Krumm emission underflows to -inf for far observations)
+        return True
+    if math.isinf(a) or math.isinf(b):
+        return False
     return abs(a - b) <= rel * max(1.0, abs(a), abs(b))
 
 
@@ -311,12 +315,12 @@ def tie_induced(path_a, path_b, keymap=None, tol=1e-12):
     alternatives have the same probability (everything after that point follows from the choice; in particular the
     trailing non-emitting states after an early stop, where the deepest chain is reported, not the most probable)."""
     pa, pb = path_a[-1][1], path_b[-1][1]
-    if abs(pa - pb) <= tol * max(1.0, abs(pa)):
+    if pa == pb or (not math.isinf(pa) and not math.isinf(pb) and abs(pa - pb) <= tol * max(1.0, abs(pa))):
         return True
     for (ka, la), (kb, lb) in zip(path_a, path_b):
         ka2 = keymap(ka) if keymap else ka
         if list(ka2) != list(kb):
-            return abs(la - lb) <= tol * max(1.0, abs(la))
+            return la == lb or (not math.isinf(la) and not math.isinf(lb) and abs(la - lb) <= tol * max(1.0, abs(la)))
     return False
 
 
@@ -335,9 +339,10 @@ def first_lattice_divergence(mt_a, mt_b, keymap=None, tol=1e-12):
         return {key: e for key, e in lat[i].o[k].items() if not e.stop}
 
     def exact_ties(entries):
+        # exactly equal PROBABILITIES of two different live states (equal distances alone are common - two roads clamped to a
+        # shared node - and decide nothing)
         lps = sorted(e.logprob for e in entries)
-        ds = sorted(e.dist_obs for e in entries)
-        return any(a == b for a, b in zip(lps, lps[1:])) or any(a == b for a, b in zip(ds, ds[1:]))
+        return any(a == b for a, b in zip(lps, lps[1:]))
     ncol = max([len(la), len(lb)])
     prev_choice_tie = False  # same state, same probability, different best predecessor: an exact tie between two candidates
     for i in range(ncol):
